@@ -268,6 +268,13 @@ func (r *Run) execCall(fr *Frame, st *State, reach Term, cc *ssa.CallCommon, ins
 	}
 	// addresses handed to the callee: what they designate is the callee's to change
 	r.escaping = map[string]bool{}
+	if fnVal.Kind == VFunc {
+		for _, b := range fnVal.Bind {
+			if b.Kind == VTerm {
+				r.escaping[b.T.S] = true
+			}
+		}
+	}
 	for _, a := range args {
 		switch a.Kind {
 		case VTerm:
@@ -319,6 +326,13 @@ func (r *Run) execCall(fr *Frame, st *State, reach Term, cc *ssa.CallCommon, ins
 	if fnVal.Kind == VFunc {
 		callee = fnVal.Fn
 		binds = fnVal.Bind
+	}
+	if callee == nil && deferred == nil {
+		// a sibling literal called through a captured variable of the enclosing function (e.g. a local helper
+		// closure used inside another literal): both capture the same variables of the parent
+		if fn, b := r.siblingClosure(fr, cc.Value); fn != nil {
+			callee, binds = fn, b
+		}
 	}
 	if callee != nil {
 		return r.callStatic(fr, st, reach, callee, binds, args, instr, cc)
@@ -418,15 +432,19 @@ func (r *Run) callStatic(fr *Frame, st *State, reach Term, callee *ssa.Function,
 			// a function literal called under its own contract: its captured variables are visible by name
 			cargs := append([]Val(nil), args...)
 			cnames := append([]string(nil), names...)
+			r.fvLocs = map[string]*Loc{}
 			for i, fv := range callee.FreeVars {
 				if i < len(binds) {
 					if l := r.derefLoc(binds[i]); l != nil {
 						cnames = append(cnames, fv.Name())
 						cargs = append(cargs, r.loadTyped(st, l))
+						r.fvLocs[fv.Name()] = l
 					}
 				}
 			}
-			return r.callWithSpec(fr, st, reach, sp, sig, cnames, cargs, instr, callee.Name())
+			res, nr := r.callWithSpec(fr, st, reach, sp, sig, cnames, cargs, instr, callee.Name())
+			r.fvLocs = nil
+			return res, nr
 		}
 		return r.callWithSpec(fr, st, reach, sp, sig, names, args, instr, callee.Name())
 	}
@@ -642,6 +660,10 @@ func (r *Run) callWithSpec(fr *Frame, st *State, reach Term, sp *FuncSpec, sig *
 	penv := &Env{r: r, vars: map[string]Val{}, oldVars: env.vars, st: st, old: pre, pkg: env.pkg, specPkg: sp.Pkg}
 	for k, v := range env.vars {
 		penv.vars[k] = v
+	}
+	// captured variables of a function literal called under contract: ensures see their values after the call
+	for name, l := range r.fvLocs {
+		penv.vars[name] = r.loadTyped(st, l)
 	}
 	switch len(rn) {
 	case 0:
@@ -1515,4 +1537,68 @@ func (r *Run) ghostAssign(env *Env, st *State, lhs Expr, val Val) bool {
 	}
 	r.store(st, l, val)
 	return true
+}
+
+// siblingClosure resolves a call through a captured variable that holds a function literal of the parent.
+func (r *Run) siblingClosure(fr *Frame, v ssa.Value) (*ssa.Function, []Val) {
+	u, ok := v.(*ssa.UnOp)
+	if !ok || u.Op != token.MUL {
+		return nil, nil
+	}
+	fv, ok := u.X.(*ssa.FreeVar)
+	if !ok {
+		return nil, nil
+	}
+	fn := fv.Parent()
+	if fn == nil || fn.Parent() == nil {
+		return nil, nil
+	}
+	parent := fn.Parent()
+	mc := findMakeClosure(parent, fn)
+	if mc == nil {
+		return nil, nil
+	}
+	// the parent's variable this free variable stands for
+	var holder *ssa.Alloc
+	for i, f := range fn.FreeVars {
+		if f == fv && i < len(mc.Bindings) {
+			holder, _ = mc.Bindings[i].(*ssa.Alloc)
+		}
+	}
+	if holder == nil {
+		return nil, nil
+	}
+	// it must only ever hold one function literal
+	var target *ssa.MakeClosure
+	for _, ref := range *holder.Referrers() {
+		if s, ok := ref.(*ssa.Store); ok && s.Addr == holder {
+			m, ok := s.Val.(*ssa.MakeClosure)
+			if !ok || (target != nil && target.Fn != m.Fn) {
+				return nil, nil
+			}
+			target = m
+		}
+	}
+	if target == nil {
+		return nil, nil
+	}
+	callee := target.Fn.(*ssa.Function)
+	// map the callee's captured variables to ours: same parent variable => same box
+	var binds []Val
+	for _, tb := range target.Bindings {
+		found := false
+		for i, mb := range mc.Bindings {
+			if mb == tb && i < len(fn.FreeVars) {
+				if x, ok := fr.free[fn.FreeVars[i]]; ok {
+					binds = append(binds, x)
+					found = true
+				}
+				break
+			}
+		}
+		if !found {
+			return nil, nil
+		}
+	}
+	return callee, binds
 }
